@@ -384,8 +384,8 @@ Definition step (s : st) (a : action) : option (st * list ev) :=
       | RLRun, false, None =>
         if mem_nat w (map fst (seen s)) || Nat.leb (next_w s) w then
           match lookup w (c_subs x) with
-          | Some i => Some (if terminal k then set_cn s c (c_set_rl x (RLRemove w)) else s, [OUp c w k; ODeliver i k])
-          | None => Some (s, [OUp c w k])
+          | Some i => Some (if terminal k then set_cn s c (c_set_rl x (RLRemove w)) else s, [OUp c PTws (frame_of w k); ODeliver i k])
+          | None => Some (s, [OUp c PTws (frame_of w k)])
           end
         else None
       | _, _, _ => None
@@ -482,7 +482,7 @@ Definition step (s : st) (a : action) : option (st * list ev) :=
   | SseFail i => match sse s i with SseReq => Some (set_sse s i SseEnded, [OSseRet i false]) | _ => None end
   | SseMsg i k =>
     match sse s i with
-    | SseActive => Some (if terminal k then set_sse s i SseEnded else s, [OSseUp i k; OSseDeliver i k])
+    | SseActive => Some (if terminal k then set_sse s i SseEnded else s, [OSseUp i (sse_event_of k); OSseDeliver i k])
     | _ => None
     end
   | SseDrop i => match sse s i with SseActive => Some (set_sse s i SseEnded, [OSseErr i]) | _ => None end
